@@ -28,6 +28,7 @@ type Obl struct {
 	Group   string   // obligations split from one clause share a group: the conjunction is tried first
 	Except  string   // known finding: SMT term of the recorded failing region (over the entry state)
 	Finding *Finding
+	Site    *SpecCtx // state at the obligation (call site): known-finding predicates may be stated over it
 	Src    string   // human-readable text of what is being proved
 }
 
@@ -55,6 +56,10 @@ type Enc struct {
 	h0        *Heap
 	modWhole  map[string]string
 	modCells  []cellMod
+	funDefs    map[string]*funInfo
+	lemmaSeen  map[string]int
+	usedLemmas map[string]bool
+	lemmaLimit int // while proving lemma number i only lemmas declared before it may be instantiated (-1 = all)
 }
 
 type WatchTerm struct {
@@ -63,7 +68,7 @@ type WatchTerm struct {
 }
 
 func newEnc(P *Program) *Enc {
-	e := &Enc{P: P, declared: map[string]string{}, notes: map[string]bool{}, used: map[string]bool{}, inlined: map[string]bool{}, maxDepth: 14, names: map[string]int{}, refSerial: map[string]int{}}
+	e := &Enc{P: P, declared: map[string]string{}, notes: map[string]bool{}, used: map[string]bool{}, inlined: map[string]bool{}, maxDepth: 14, names: map[string]int{}, refSerial: map[string]int{}, funDefs: map[string]*funInfo{}, lemmaSeen: map[string]int{}, usedLemmas: map[string]bool{}, lemmaLimit: -1}
 	e.decls = append(e.decls, "(declare-fun gstr.len (Int) Int)", "(declare-fun gstr.sub (Int Int Int) Int)", "(declare-fun gstr.cat (Int Int) Int)")
 	e.declare("alloc@0", "Int")
 	e.lines = append(e.lines, "(assert (>= |alloc@0| 0))")
@@ -136,6 +141,16 @@ func (e *Enc) oblige(name, kind, guard, goal, pos, src string, tags []string) *O
 func (e *Enc) harr(h *Heap, name, sort string) string {
 	if t, ok := h.m[name]; ok {
 		return t
+	}
+	if h.formal != nil {
+		if _, ok := h.formal.used[name]; !ok {
+			h.formal.used[name] = sort
+			h.formal.order = append(h.formal.order, name)
+		}
+		if h.formal.declare {
+			return e.declare(h.formal.prefix+name, sort)
+		}
+		return q(h.formal.prefix + name)
 	}
 	return e.declare(name+"@0", sort)
 }
